@@ -22,7 +22,7 @@ CLAIMED["C11"] = (
 )
 
 CLAIMED["C02"] = (
-    "ast extraction of protobuf field writes per builder (.create_message) and field reads per factory (.create_from_message) with reaching-definition provenance of the written value and of where each read value ends up, compared against the parsed .proto message definitions Writer-side goal-lanelet pairing is evaluated on three goal states (protobuf messages as lenient objects); the per-write freshness of the message comes from C15"s effect trace. Behavioural rules are decided by abstract evaluation (sa/strdom.py): the anchored functions are interpreted over their AST on a small symbolic world (objects with atom-valued fields, concrete small collections, uninterpreted outside calls, model functions for outside collaborators), every test must be decidable from the shape case (else the check refuses), and the resulting state / value is compared with what the property requires; nothing of the repository is imported or executed. All modules are first brought into a normal form (sa/unroll.py: constant-table loops unrolled, constant getattr/setattr folded).",
+    "ast extraction of protobuf field writes per builder (.create_message) and field reads per factory (.create_from_message) with reaching-definition provenance of the written value and of where each read value ends up, compared against the parsed .proto message definitions Writer-side goal-lanelet pairing is evaluated on three goal states (protobuf messages as lenient objects); the per-write freshness of the message comes from the effect trace of C15. Behavioural rules are decided by abstract evaluation (sa/strdom.py): the anchored functions are interpreted over their AST on a small symbolic world (objects with atom-valued fields, concrete small collections, uninterpreted outside calls, model functions for outside collaborators), every test must be decidable from the shape case (else the check refuses), and the resulting state / value is compared with what the property requires; nothing of the repository is imported or executed. All modules are first brought into a normal form (sa/unroll.py: constant-table loops unrolled, constant getattr/setattr folded).",
     "Decides per message type the field-level round-trip triangle: every proto field of a written message is set by its builder, every field set is read by the paired factory, the value written from attribute a reaches constructor/attribute slot a (no crossing), enums travel by member name through the same proto enum into the same-named Python enum, double fields receive the bare attribute value (no formatting/rounding), optional fields written under a guard are read under HasField, and builders dereference optional attributes only under a None guard. Equality of concrete values after a round trip is not decided.",
     "Trusts the protobuf runtime, the generated *_pb2 modules matching the .proto files, and annotation-derived domain classes of builder parameters.",
     "DESIGN.md §3 C02",
@@ -36,14 +36,14 @@ CLAIMED["C18"] = (
 )
 
 CLAIMED["C04"] = (
-    "ast rules: annotation-typed protocol check of every loop over the scenario"s obstacle collections, getter/setter attribute agreement, canonicalised argument-role rules at the placement and heading sites, guard implication over linear integer forms (t, initial time step, list length) for the time-step dispatch and the trajectory index, derived role<->registry table for the scenario-level filters Behavioural rules are decided by abstract evaluation (sa/strdom.py): the anchored functions are interpreted over their AST on a small symbolic world (objects with atom-valued fields, concrete small collections, uninterpreted outside calls, model functions for outside collaborators), every test must be decidable from the shape case (else the check refuses), and the resulting state / value is compared with what the property requires; nothing of the repository is imported or executed. All modules are first brought into a normal form (sa/unroll.py: constant-table loops unrolled, constant getattr/setattr folded). Evaluated: the occupancy set of a trajectory prediction (4 shape cases), the time-step look-up of predictions (6 cases), the three scenario-level queries (57 cases). Freshness of stored occupancies comes from C11"s engine.",
+    "ast rules: annotation-typed protocol check of every loop over the scenario's obstacle collections, getter/setter attribute agreement, canonicalised argument-role rules at the placement and heading sites, guard implication over linear integer forms (t, initial time step, list length) for the time-step dispatch and the trajectory index, derived role<->registry table for the scenario-level filters Behavioural rules are decided by abstract evaluation (sa/strdom.py): the anchored functions are interpreted over their AST on a small symbolic world (objects with atom-valued fields, concrete small collections, uninterpreted outside calls, model functions for outside collaborators), every test must be decidable from the shape case (else the check refuses), and the resulting state / value is compared with what the property requires; nothing of the repository is imported or executed. All modules are first brought into a normal form (sa/unroll.py: constant-table loops unrolled, constant getattr/setattr folded). Evaluated: the occupancy set of a trajectory prediction (4 shape cases), the time-step look-up of predictions (6 cases), the three scenario-level queries (57 cases). Freshness of stored occupancies comes from the engine of C11.",
     "Decides the structural, necessary part: attributes used on elements of Scenario.obstacles/... exist in every class the collection may hold (or are guarded); a setter stores what its getter reads (129 pairs); the exact occupancy is shape.rotate_translate_local(state.position, state.orientation) and only when neither position nor orientation is a set; headings are atan2(velocity_y, velocity); the initial occupancy and every predicted occupancy are computed from, and stamped with, the state they belong to; static/environment occupancies ignore the time; DynamicObstacle answers the initial data exactly at the initial step, delegates with the same time step only for later steps with a prediction and otherwise None; occupancy lookup returns only a time-step match; the trajectory index is t - initial under guards that imply 0 <= index < len; scenario-level queries ask the per-obstacle answer at the queried step, pair ids and answers of the same element, and iterate the registry of the requested role. Not decided: the enclosing-rectangle formula for uncertain states, numeric values, that state i of a trajectory carries time step initial+i.",
     "Trusts annotations of the collection getters, constructor-established roles, and the naming of the per-obstacle query methods.",
     "DESIGN.md §3 C04",
 )
 
 CLAIMED["C19"] = (
-    "ast rules on draw_params.py (structure of BaseParam.__setattr__/__post_init__ with syntax-directed guard sets, dataclass/field declarations) and on MPRenderer (parameter attribute chains typed against the declared parameter classes, group selection preludes, nullable-result dereference guards via resolved callee annotations, canonicalised time arguments of occupancy queries, the lanelet id filter) draw_scenario"s dispatch is decided by abstract evaluation on a scenario with one obstacle of every kind (sa/strdom.py).",
+    "ast rules on draw_params.py (structure of BaseParam.__setattr__/__post_init__ with syntax-directed guard sets, dataclass/field declarations) and on MPRenderer (parameter attribute chains typed against the declared parameter classes, group selection preludes, nullable-result dereference guards via resolved callee annotations, canonicalised time arguments of occupancy queries, the lanelet id filter) The dispatch of draw_scenario is decided by abstract evaluation on a scenario with one obstacle of every kind (sa/strdom.py).",
     "Decides three structural clauses only. Propagation: an assignment on a group is stored where declared and forwarded unmodified to every nested BaseParam once initialised; __post_init__ switches this on and re-assigns all BaseParam fields; all 22 groups are dataclasses below BaseParam with per-instance nested groups of the declared type. Totality (necessary conditions): all 137 parameter reads in draw_* methods name declared fields of the group type the method selects; every method selects the group of its declared kind from both default and top-level parameters; draw_scenario pairs each obstacle class with its group; possibly-None query results are dereferenced only under a not-None test in the obstacle drawers. Model agreement: the shape drawn is obj.occupancy_at_time(draw_params.time_begin), further occupancies range within [time_begin, time_end); the lanelet loop runs over all lanelets and skips exactly the unselected ids. NOT decided: that drawing completes for every scenario and parameter setting, what matplotlib shows, icons / labels / signals / trajectories.",
     "Trusts dataclasses semantics, annotations of draw_params parameters and query return types, and that the patches appended are what matplotlib renders.",
     "DESIGN.md §3 C19",
@@ -71,14 +71,14 @@ CLAIMED["C09"] = (
 )
 
 CLAIMED["C10"] = (
-    "ast rules over LaneletNetwork/Scenario: frozen reference-field table vs the assignments in each cleanup_* function (filter against the right registry"s id set), must-follow of cleanup after every registry deletion, reaching-definition checks of the cut-out filters, provenance of the hanging-member set difference Behavioural rules are decided by abstract evaluation (sa/strdom.py): the anchored functions are interpreted over their AST on a small symbolic world (objects with atom-valued fields, concrete small collections, uninterpreted outside calls, model functions for outside collaborators), every test must be decidable from the shape case (else the check refuses), and the resulting state / value is compared with what the property requires; nothing of the repository is imported or executed. All modules are first brought into a normal form (sa/unroll.py: constant-table loops unrolled, constant getattr/setattr folded). Evaluated: the clean-up and removal methods of a real LaneletNetwork object with three lanelets, two signs, two lights and an intersection, densely cross-referenced, with and without references to ids that do not exist; afterwards no dangling and no lost reference. Cut-out and hanging-member rules stay structural.",
+    "ast rules over LaneletNetwork/Scenario: frozen reference-field table vs the assignments in each cleanup_* function (filter against the right registry's id set), must-follow of cleanup after every registry deletion, reaching-definition checks of the cut-out filters, provenance of the hanging-member set difference Behavioural rules are decided by abstract evaluation (sa/strdom.py): the anchored functions are interpreted over their AST on a small symbolic world (objects with atom-valued fields, concrete small collections, uninterpreted outside calls, model functions for outside collaborators), every test must be decidable from the shape case (else the check refuses), and the resulting state / value is compared with what the property requires; nothing of the repository is imported or executed. All modules are first brought into a normal form (sa/unroll.py: constant-table loops unrolled, constant getattr/setattr folded). Evaluated: the clean-up and removal methods of a real LaneletNetwork object with three lanelets, two signs, two lights and an intersection, densely cross-referenced, with and without references to ids that do not exist; afterwards no dangling and no lost reference. Cut-out and hanging-member rules stay structural.",
     "Decides that every id-valued reference field (15 fields in 4 holder classes) is re-filtered by the matching cleanup, that every deletion from _lanelets/_traffic_signs/_traffic_lights is followed by that cleanup on its path, that the cut-out intersects every intersection reference with the kept ids and copies exactly the signs/lights of kept lanelets, and that hanging signs/lights are (referenced by removed) minus (referenced by remaining). Does not decide that untouched relations keep their values.",
     "Trusts the frozen reference-field table (a new id-valued field would have to be added there) and well-formed stop lines (as the property assumes).",
     "DESIGN.md §3 C10",
 )
 
 CLAIMED["C05"] = (
-    "ast rules: reaching-definition pairing of the rotation-block entries in geometry/transform.py, annotation-typed spatial-attribute coverage of all 21 translate_rotate methods, argument pass-through, protocol completeness over typed receivers, assignability of the attributes State.translate_rotate writes in every State subclass Derived spatial data (occupancy sets, initial occupancy, polygons, vertices, spatial index) under translate_rotate is judged by C11"s freshness engine (T7-DERIVED).",
+    "ast rules: reaching-definition pairing of the rotation-block entries in geometry/transform.py, annotation-typed spatial-attribute coverage of all 21 translate_rotate methods, argument pass-through, protocol completeness over typed receivers, assignability of the attributes State.translate_rotate writes in every State subclass Derived spatial data (occupancy sets, initial occupancy, polygons, vertices, spatial index) under translate_rotate is judged by the freshness engine of C11 (T7-DERIVED).",
     "Decides necessary structure of exactness and totality: the 2x2 block is (cos a, -sin a; sin a, cos a) of the angle parameter on every branch (no approximation branch); every spatial attribute of every class with a translate_rotate is moved (reasoned exception table for local-frame and derived attributes); nested calls receive (translation, angle) unmodified; every class in the Scenario.obstacles union and every other typed receiver defines translate_rotate; State.translate_rotate only assigns stored attributes and classes with a derived heading rotate its dependencies; orientation sums are normalised. Rounding accuracy and invertibility as numbers are not decided.",
     "Trusts annotations for what is spatial, the exception table (20 rows with reasons) and numpy/math semantics.",
     "DESIGN.md §3 C05",
@@ -105,7 +105,7 @@ CLAIMED["C16"] = (
     "DESIGN.md §2 E-RANGE, §3 C16",
 )
 CLAIMED["C08"] = (
-    "ast rules on GoalRegion/PlanningProblem: derived-property clobber analysis (stores into dependencies of computed State properties vs later reads, through returned aliases, with receiver classes from annotations), dispatch typing, field-table agreement, conjunction/disjunction structure, attribute pairing, enumerate-index provenance Behavioural rules are decided by abstract evaluation (sa/strdom.py): the anchored functions are interpreted over their AST on a small symbolic world (objects with atom-valued fields, concrete small collections, uninterpreted outside calls, model functions for outside collaborators), every test must be decidable from the shape case (else the check refuses), and the resulting state / value is compared with what the property requires; nothing of the repository is imported or executed. All modules are first brought into a normal form (sa/unroll.py: constant-table loops unrolled, constant getattr/setattr folded). Evaluated: ShapeGroup.contains_point for every pattern of containing members; the angle-interval containment is C16"s interval interpretation (shared).",
+    "ast rules on GoalRegion/PlanningProblem: derived-property clobber analysis (stores into dependencies of computed State properties vs later reads, through returned aliases, with receiver classes from annotations), dispatch typing, field-table agreement, conjunction/disjunction structure, attribute pairing, enumerate-index provenance Behavioural rules are decided by abstract evaluation (sa/strdom.py): the anchored functions are interpreted over their AST on a small symbolic world (objects with atom-valued fields, concrete small collections, uninterpreted outside calls, model functions for outside collaborators), every test must be decidable from the shape case (else the check refuses), and the resulting state / value is compared with what the property requires; nothing of the repository is imported or executed. All modules are first brought into a normal form (sa/unroll.py: constant-table loops unrolled, constant getattr/setattr folded). Evaluated: ShapeGroup.contains_point for every pattern of containing members; the angle-interval containment is the interval interpretation of C16 (shared).",
     "Decides the structure of the goal check: no computed state property (PMState.orientation, ExtendedPMState.velocity_y) is read after one of its dependencies was overwritten on the same object; int and float are dispatched alike; the attributes a goal state may constrain are exactly those is_reached checks, each conjoined into the per-goal flag, results disjoined over goal states; each check pairs state.X with goal.X on the harmonised state; speed is norm(vx, vy) and heading atan2(vy, vx) at every site; goal_reached returns the index enumerated with the state that reached the goal. Containment arithmetic is C16; shape containment is C06.",
     "Trusts annotations (TraceState union) for which classes a state variable may have, and the naming of the four checked attributes.",
     "DESIGN.md §3 C08",
@@ -125,14 +125,14 @@ CLAIMED["C13"] = (
     "DESIGN.md §3 C13 (revised), §9",
 )
 CLAIMED["C14"] = (
-    "constant-table agreement (ast.literal_eval of the enum tables) against each other, the dataclass fields of the reader"s class table and the parsed solution XSD; formatter classification of the writer"s text expressions Behavioural rules are decided by abstract evaluation (sa/strdom.py): the anchored functions are interpreted over their AST on a small symbolic world (objects with atom-valued fields, concrete small collections, uninterpreted outside calls, model functions for outside collaborators), every test must be decidable from the shape case (else the check refuses), and the resulting state / value is compared with what the property requires; nothing of the repository is imported or executed. All modules are first brought into a normal form (sa/unroll.py: constant-table loops unrolled, constant getattr/setattr folded). Evaluated against an element model: root node -> header parser (3 cases), trajectory node -> trajectory parser (every trajectory type), and the identifying data round trip shared with C13.",
+    "constant-table agreement (ast.literal_eval of the enum tables) against each other, the dataclass fields of the reader's class table and the parsed solution XSD; formatter classification of the writer's text expressions Behavioural rules are decided by abstract evaluation (sa/strdom.py): the anchored functions are interpreted over their AST on a small symbolic world (objects with atom-valued fields, concrete small collections, uninterpreted outside calls, model functions for outside collaborators), every test must be decidable from the shape case (else the check refuses), and the resulting state / value is compared with what the property requires; nothing of the repository is imported or executed. All modules are first brought into a normal form (sa/unroll.py: constant-table loops unrolled, constant getattr/setattr folded). Evaluated against an element model: root node -> header parser (3 cases), trajectory node -> trajectory parser (every trajectory type), and the identifying-data round trip shared with C13.",
     "Decides for all 7 trajectory types that StateFields/XMLStateFields/StateType/TrajectoryType are keyed alike, equally long and index-aligned (name correspondence per position), that the XML names, state/trajectory element names, header attributes and integer-typed elements equal the solution schema's for the 6 types it defines, that the reader's class table covers every state type with classes owning all fields (so what can be written can be read), that values are written with the shortest round-trip repr and parsed with float()/int() ('time' only), states are sorted by time step, and date/computation-time formats are mutually inverse. Numeric bit-identity follows from repr round-tripping, which is trusted.",
     "Trusts str(np.float64)/float() round-tripping, xml.etree, and the parsed XSD.",
     "DESIGN.md §2 E-TABLE/E-NUMFMT, §3 C14",
 )
 
 CLAIMED["C03"] = (
-    "abstract interpretation of the XML builder functions into the emitted element tree (tags, attributes, text expressions, emission order, guards; builder calls expanded, dynamic tags resolved from enums / state fields / obstacle roles) walked against the parsed 2020a XSD; formatter classification of every numeric text expression float_to_str"s own guard is decided exactly on the representatives of the regions its constants cut; per-write freshness of the root element comes from C15"s effect trace. Modules are first brought into a normal form (sa/unroll.py: constant-table loops unrolled, SubElement split).",
+    "abstract interpretation of the XML builder functions into the emitted element tree (tags, attributes, text expressions, emission order, guards; builder calls expanded, dynamic tags resolved from enums / state fields / obstacle roles) walked against the parsed 2020a XSD; formatter classification of every numeric text expression The guard of float_to_str itself is decided exactly on the representatives of the regions its constants cut; per-write freshness of the root element comes from the effect trace of C15. Modules are first brought into a normal form (sa/unroll.py: constant-table loops unrolled, SubElement split).",
     "Decides for the whole writer (about 200 element/attribute emission sites in 30 builders): every emitted name is allowed by the schema type of its parent in at least one context the builder is used in (type-dispatch branches for inexpressible values excepted), xs:sequence children are emitted in schema order (choice groups unordered), required children and attributes are emitted, decimal-typed text goes through the positional formatter, enumeration text is the enum value, and the writer's attribute-name mapping inverts the reader's on every schema state element. Id/ref key constraints, positiveDecimal ranges and what float_to_str prints for a particular number are not decided.",
     "Trusts the XSD reader (flattened compositors), float_to_str producing plain decimals, and annotations for int-typed sources.",
     "DESIGN.md §2 E-TRIANGLE/E-NUMFMT, §3 C03",
